@@ -1,6 +1,7 @@
 package props
 
 import (
+	"time"
 	"fmt"
 
 	"verifharness/internal/core"
@@ -55,6 +56,11 @@ func truthProbes() []probe {
 		{"t_word", "false", nil, true},
 		{"t_tslice", []mt.Val{"x"}, []string{"x"}, true},
 		{"t_i64", int64(7), int64(7), true},
+		// struct values are "everything else": truthy even when all their fields are zero
+		{"t_zstruct", true, struct{ A, B int }{}, true},
+		{"t_estruct", true, struct{}{}, true},
+		{"t_ztime", true, time.Time{}, true},
+		{"t_pstruct", true, &struct{ A string }{}, true},
 	}
 }
 
